@@ -359,4 +359,31 @@ Admissible(S, c) ==
     [] Kind(S) = "after" -> AfterAdmissible(S, c)
     [] Kind(S) = "call"  -> \A i \in 1..Len(c.batch) : c.batch[i].e \in ExtKinds
     [] OTHER -> TRUE
+---------------------------------------------------------------------------
+\* the finite sets of draw outcomes of the next step (enumerated supports only)
+TrChoices(S) ==
+  LET f == Top(S)
+      r == Rt(S, f.m)
+  IN IF r.state = END THEN {NoChoice}
+     ELSE LET v == Vec(StateOf(S, f.m, r.state), f.ev)
+          IN IF v = <<>> THEN {NoChoice}
+             ELSE UNION {
+               IF to < 0 THEN {[NoChoice EXCEPT !.to = to]}
+               ELSE LET nst == StateOf(S, f.m, to)
+                        Ls == IF r.state # to /\ HasLimit(nst.action) THEN nst.action.limit.vals ELSE {0}
+                        As == IF nst.ca.on /\ ~nst.ca.copy /\ ~IsNoDist(nst.ca.dist) THEN nst.ca.dist.vals ELSE {0}
+                        Bs == IF nst.cb.on /\ ~nst.cb.copy /\ ~IsNoDist(nst.cb.dist) THEN nst.cb.dist.vals ELSE {0}
+                    IN {[NoChoice EXCEPT !.to = to, !.lim = l, !.va = a, !.vb = b] :
+                          l \in Ls, a \in As, b \in Bs}
+               : to \in Outcomes(v)}
+
+AfterChoices(S) ==
+  LET f == Top(S)
+      a == StateOf(S, f.m, f.next).action
+      Ts == IF a.kind \in {"SendPadding", "BlockOutgoing"} THEN {DurOf(v) : v \in a.timeout.vals} ELSE {<<0, 0>>}
+      Ds == IF a.kind \in {"BlockOutgoing", "UpdateTimer"} THEN {DurOf(v) : v \in a.duration.vals} ELSE {<<0, 0>>}
+  IN IF AfterSched(S)
+     THEN {[NoChoice EXCEPT !.timeout = t, !.duration = d] : t \in Ts, d \in Ds}
+     ELSE {NoChoice}
+
 =============================================================================
